@@ -419,6 +419,13 @@ var workerErr = os.Stderr
 
 // WorkerLoop is the main loop of a worker process: one JSON job per line in, one JSON result per line out.
 func WorkerLoop(exec func(*Job) *JobResult) {
+	// the sandbox has no memory limit: a request-sized allocation in the code under test must kill this
+	// worker (which the master reports as a process death), not the machine.  The race build reserves
+	// a huge shadow address space and cannot run under an address-space limit.
+	if !vrt.RaceBuild {
+		lim := uint64(12 << 30)
+		syscall.Setrlimit(syscall.RLIMIT_AS, &syscall.Rlimit{Cur: lim, Max: lim})
+	}
 	in := bufio.NewReaderSize(os.Stdin, 1<<20)
 	out := bufio.NewWriter(os.NewFile(3, "results"))
 	// Engines log to stdout/stderr (badger: captured os.Stderr at init; tikv client: stdout).  Keep a
